@@ -174,6 +174,9 @@ class UC(PyStub):
         f = unit_factor(units)
         if isinstance(value, Col):
             return Col(value.name, value.expr / f, value.scaled)
+        if isinstance(value, (list, tuple)):          # np.asarray(value) / factor
+            import numpy as np
+            value = np.array(list(value), dtype=object)
         return value / f
 
     def set_in_units(self, value, units):
@@ -181,6 +184,9 @@ class UC(PyStub):
         f = unit_factor(units)
         if isinstance(value, Col):
             return Col(value.name, value.expr * f, value.scaled)
+        if isinstance(value, (list, tuple)):
+            import numpy as np
+            value = np.array(list(value), dtype=object)
         return value * f
 
 
